@@ -485,7 +485,7 @@ func (n *Node) SwapOut(peerID, chain, scid string, amtSat uint64, premiumLimitPP
 		err error
 	}
 	done := make(chan result, 1)
-	panicText = n.Call(func() {
+	panicText = n.callOn(inc, func() { // bound to the incarnation whose service is called: the node may be restarted meanwhile
 		s, e := inc.Svc.SwapOut(peerID, chain, scid, n.ID, amtSat, premiumLimitPPM)
 		done <- result{s, e}
 	})
@@ -512,7 +512,7 @@ func (n *Node) SwapIn(peerID, chain, scid string, amtSat uint64, premiumLimitPPM
 		err error
 	}
 	done := make(chan result, 1)
-	panicText = n.Call(func() {
+	panicText = n.callOn(inc, func() { // bound to the incarnation whose service is called: the node may be restarted meanwhile
 		s, e := inc.Svc.SwapIn(peerID, chain, scid, n.ID, amtSat, premiumLimitPPM)
 		done <- result{s, e}
 	})
@@ -582,7 +582,7 @@ func (w *World) DeliverNow(from, toName string, msgTypeHex string, payload []byt
 		return "nohandler", ""
 	}
 	var err error
-	panicText = n.Call(func() { err = h(from, msgTypeHex, payload) })
+	panicText = n.callOn(inc, func() { err = h(from, msgTypeHex, payload) })
 	if err != nil {
 		errText = err.Error()
 	}
